@@ -11,5 +11,6 @@ import SparseV.Props.C17
 #print axioms SparseV.C17.divmod_route
 #print axioms SparseV.C17.divmod_spellings_agree
 #print axioms SparseV.C17.multi_output_rejected
+#print axioms SparseV.C17.out_trial_deterministic
 #print axioms SparseV.C17.out_keeps_format
 #print axioms SparseV.C17.inplace_every_pair
